@@ -11,3 +11,8 @@ pub fn panic_nounwind_fmt_stub(_fmt: std::fmt::Arguments<'_>, _force_no_backtrac
 pub fn panic_nounwind_stub(_expr: &'static str) -> ! {
     panic!("core::panicking::panic_nounwind (unsafe precondition violated)");
 }
+/// Deallocation is a no-op (memory is leaked): freeing an object whose identity is symbolic (which record was evicted /
+/// removed) makes CBMC case-split its deallocation bookkeeping over every candidate object and costs 10-100x.
+/// Consequence: use-after-free is NOT visible in harnesses that use this stub; the thorough tier's memory-safety
+/// runs do not use it.
+pub unsafe fn dealloc_noop(_ptr: *mut u8, _layout: std::alloc::Layout) {}
